@@ -685,4 +685,72 @@ def rule_l(ctx: Ctx) -> None:
                 '(in the incomparable row every order comparison is false).')
 
 
-RULES = [rule_a, rule_b, rule_c, rule_d, rule_e, rule_f, rule_g, rule_h, rule_i, rule_j, rule_k, rule_l]
+def _bool_positions(e: ast.AST, out: list):
+    """sub-expressions of e whose *truth value* is taken (operands of and/or/not, tests, the element expression of any()/all())."""
+    if isinstance(e, ast.BoolOp):
+        for v in e.values:
+            _bool_positions(v, out)
+    elif isinstance(e, ast.UnaryOp) and isinstance(e.op, ast.Not):
+        _bool_positions(e.operand, out)
+    elif isinstance(e, ast.IfExp):
+        _bool_positions(e.test, out)
+    else:
+        out.append(e)
+
+
+def rule_m(ctx: Ctx) -> None:
+    """The members of an enumeration are decoded values: 0, 0.0, False, Decimal('0') and a zero duration are members like any other.  Code that
+    asks whether the enumeration admits only the empty string (is_empty: "character data is not allowed because content is empty") must compare the
+    members with '' - the truth value of a member says nothing about its lexical form."""
+    rule = 'C02.m'
+    n = 0
+    for f in ctx.idx.iter_functions('validators'):
+        if isinstance(f.node, ast.Lambda):
+            continue
+        fed = {id(c.args[0]) for c in ast.walk(f.node) if isinstance(c, ast.Call) and isinstance(c.func, ast.Name) and c.func.id in ('any', 'all') and c.args}
+        for x in ast.walk(f.node):
+            # (1) any(E) / all(E) / filter(None, E) directly over the member list
+            if isinstance(x, ast.Call) and isinstance(x.func, ast.Name) and x.func.id in ('any', 'all', 'filter', 'bool') and x.args:
+                arg = x.args[-1]
+                if isinstance(arg, ast.Attribute) and arg.attr == 'enumeration' and x.func.id in ('any', 'all', 'filter'):
+                    n += 1
+                    ctx.ob(rule, f'{f.qualname.split(".", 2)[-1]}: `{text(x)[:50]}` does not take the truth value of the enumeration members', f.loc(x), False,
+                           'the members are decoded values: an enumeration of the single value 0 (or 0.0, false) is taken for an enumeration of empty strings - the element '
+                           'then refuses the very value the facet admits ("character data is not allowed because content is empty")',
+                           key=f'{f.qualname}|member-truth|{text(x)[:40]}')
+            # (2) comprehension / loop over the member list: the loop variable is never in a boolean position
+            gens = []
+            if isinstance(x, (ast.GeneratorExp, ast.ListComp, ast.SetComp)):
+                gens = [(g.target, ([x.elt] if id(x) in fed else []) + list(g.ifs), True) for g in x.generators
+                        if isinstance(g.iter, ast.Attribute) and g.iter.attr == 'enumeration']
+            elif isinstance(x, ast.For) and isinstance(x.iter, ast.Attribute) and x.iter.attr == 'enumeration':
+                gens = [(x.target, [t.test for b in x.body for t in ast.walk(b) if isinstance(t, (ast.If, ast.While, ast.IfExp))], False)]
+            for tgt, exprs, is_comp in gens:
+                if not isinstance(tgt, ast.Name):
+                    continue
+                n += 1
+                bad = []
+                for e in exprs:
+                    pos: list = []
+                    _bool_positions(e, pos)
+                    # the element expression of a comprehension is a boolean position only when the comprehension feeds any()/all()
+                    for q in pos:
+                        if isinstance(q, ast.Name) and q.id == tgt.id:
+                            bad.append(q)
+                        elif isinstance(q, ast.Call) and isinstance(q.func, ast.Name) and q.func.id == 'bool' and q.args and text(q.args[0]) == tgt.id:
+                            bad.append(q)
+                ok = not bad
+                ctx.ob(rule, f'{f.qualname.split(".", 2)[-1]}: the loop over `{text(x.iter if isinstance(x, ast.For) else [g.iter for g in x.generators][0])}` compares the members, it does not take their truth value',
+                       f.loc(bad[0]) if bad else f.loc(x), ok,
+                       '' if ok else f'`{tgt.id}` is used as a condition: the member 0 (0.0, false, a zero duration) counts as "empty"', key=f'{f.qualname}|member-loop|{tgt.id}')
+    ie = ctx.idx.method('xmlschema.validators.simple_types.XsdSimpleType', 'is_empty')
+    cmp_ok = any(isinstance(c, ast.Compare) and len(c.ops) == 1 and isinstance(c.ops[0], (ast.Eq, ast.NotEq)) and isinstance(c.comparators[0], ast.Constant) and c.comparators[0].value == ''
+                 for c in ast.walk(ie.node))
+    ctx.ob(rule, "XsdSimpleType.is_empty compares the enumeration members with ''", ie.loc(), cmp_ok or 'enumeration' not in text(ie.node),
+           '' if cmp_ok else "no `== ''` comparison left in is_empty although it consults the enumeration", key='is_empty|lexical-comparison')
+    ctx.floor(rule, 'walks over enumeration members', n, 1)
+    ctx.explain("C02.m: no any()/all()/filter() directly over `….enumeration`, and in every comprehension or loop over it the loop variable never stands in a boolean position "
+                "(operand of and/or/not, if-test, element of the comprehension); XsdSimpleType.is_empty compares the members with ''.")
+
+
+RULES = [rule_a, rule_b, rule_c, rule_d, rule_e, rule_f, rule_g, rule_h, rule_i, rule_j, rule_k, rule_l, rule_m]
